@@ -88,7 +88,7 @@ def _run_chunk(root, cases, workdir, tag, sanitize, timeout, max_crashes=40):
         start = k + 1
     for i, line in ub.items():
         if results.get(i, ["missing"])[0] in ("ok", "exc"):
-            results[i] = ["ubsan", 0, line]
+            results[i] = ["ubsan", 0, line, results[i]]       # the report AND what the call returned
     return [results.get(i, ["missing"]) for i in range(len(cases))]
 
 
